@@ -492,7 +492,7 @@ func hooksC17() Hooks {
 		for _, s := range before {
 			had[s.Base] = true
 		}
-		if op.K == "pub" {
+		if op.K == "pub" && !r.pubRefused() {
 			nextBefore := r.M.Next - int64(len(op.Msgs))
 			for _, s := range after {
 				if !had[s.Base] && s.Base >= nextBefore && s.Ver != 0 && s.Ver != nv {
